@@ -1,8 +1,8 @@
 // C32 — the editor event loop handles events serially and never loses a redraw.
 // M: MCLoop (exhaustive interleavings of 2-3 producers with the loop; safety + liveness under WF).
 // V: events recorded from the REAL loop (cli.VerifNewLoop, build tag verif) under free-running
-//    producers and handlers are validated against TraceLoop (TLC infers the unlogged internal steps
-//    and evaluates NoLostRedraw / FullKept in every inferred state).
+// producers and handlers are validated against TraceLoop (TLC infers the unlogged internal steps
+// and evaluates NoLostRedraw / FullKept in every inferred state).
 package main
 
 import (
@@ -80,30 +80,9 @@ func run(c *lib.Ctx) error {
 		c.Logf("model %s cb=%d: %d distinct states", m.prods, m.cb, r.Distinct)
 	}
 
-	// ---- vacuity guard: the trace spec must reject a corrupted trace
-	good := oneRun(rand.New(rand.NewSource(12345)), 3, 5, 2)
-	if v, err := lib.ValidateTrace(c, "TraceLoop(selftest-good)", dir, "TraceLoop", good, 3*time.Minute); err != nil {
+	// ---- vacuity guard: the trace spec must reject corrupted traces
+	if err := vacuityGuard(c, dir); err != nil {
 		return err
-	} else if !v.Accepted {
-		rejectTrace(c, "selftest", good, v)
-	}
-	corrupt := append([]event{}, good...)
-	flipped := false
-	for i := range corrupt {
-		if corrupt[i].Ev == "Draw" && !corrupt[i].Final {
-			corrupt[i].Full = !corrupt[i].Full
-			flipped = true
-			break
-		}
-	}
-	if flipped {
-		v, err := lib.ValidateTrace(c, "TraceLoop(selftest-corrupt)", dir, "TraceLoop", corrupt, 3*time.Minute)
-		if err != nil {
-			return err
-		}
-		if v.Accepted {
-			return lib.Infra("vacuity guard: TraceLoop accepted a trace with a flipped Draw flag")
-		}
 	}
 
 	// ---- V
@@ -181,6 +160,115 @@ func run(c *lib.Ctx) error {
 		return firstErr
 	}
 	c.Assume("TLC trusted; events are ordered by one mutex-protected tracer; effects of lock-free calls are placed by TLC between Start and End; the Go select choice is not forced (free-running schedules only)")
+	return nil
+}
+
+// vacuityGuard shows that TraceLoop binds: a hand-written sequential trace of the loop is accepted and
+// each corruption of it is rejected. The corruptions are chosen so that NO placement of the unlogged
+// internal steps (Effect, Extract, SelRedraw, polls) can explain them — in this trace every call has
+// ended (its effect is forced to lie before the End event) before the loop event that depends on it is
+// logged. A recorded run of the real loop is not used for the flag corruptions in general: there a
+// request can be outstanding (RedrawStart logged, effect not yet placed) when a Draw is logged, and
+// then BOTH values of the Draw flag are behaviours of the specification, so a flipped flag may be
+// accepted rightly. From a recorded run only the flip that is unexplainable for every schedule is
+// used: a Draw without the full flag, logged before any full request was even started, turned into
+// a full one.
+func vacuityGuard(c *lib.Ctx, dir string) error {
+	synth := []event{
+		{Ev: "Reset"},
+		{Ev: "Draw"}, // 1
+		{Ev: "RedrawStart", P: 1}, {Ev: "RedrawEnd", P: 1},
+		{Ev: "Draw"}, // 4
+		{Ev: "InputStart", P: 1, E: 1001}, {Ev: "InputEnd", P: 1},
+		{Ev: "InputStart", P: 1, E: 1002}, {Ev: "InputEnd", P: 1},
+		{Ev: "Handle", E: 1001}, // 9
+		{Ev: "Handle", E: 1002}, // 10
+		{Ev: "Draw"},            // 11
+		{Ev: "RedrawStart", P: 1, Full: true}, {Ev: "RedrawEnd", P: 1},
+		{Ev: "Draw", Full: true}, // 14
+		{Ev: "Quiescent"},        // 15
+		{Ev: "ReturnStart", P: 99, B: "end"}, {Ev: "ReturnEnd", P: 99},
+		{Ev: "ReturnStart", P: 1, B: "late"}, {Ev: "ReturnEnd", P: 1},
+		{Ev: "Draw", Final: true}, // 20
+		{Ev: "Returned", B: "end"},
+	}
+	for i, want := range map[int]string{1: "Draw", 4: "Draw", 9: "Handle", 10: "Handle", 11: "Draw", 14: "Draw", 15: "Quiescent", 20: "Draw", 21: "Returned"} {
+		if synth[i].Ev != want {
+			return lib.Infra("vacuity guard: hand-written trace index %d is %s, not %s", i, synth[i].Ev, want)
+		}
+	}
+	type corruption struct {
+		name string
+		evs  []event
+	}
+	mod := func(f func(e []event) []event) []event { return f(append([]event{}, synth...)) }
+	cs := []corruption{
+		{"a full Draw although no full redraw was ever requested", mod(func(e []event) []event { e[4].Full = true; return e })},
+		{"a requested full redraw downgraded (Draw without the full flag)", mod(func(e []event) []event { e[14].Full = false; return e })},
+		{"events handled out of arrival order", mod(func(e []event) []event { e[9].E, e[10].E = e[10].E, e[9].E; return e })},
+		{"an event handled twice", mod(func(e []event) []event { e[10].E = e[9].E; return e })},
+		{"a lost redraw (request, no Draw after it, token gone at quiescence)", mod(func(e []event) []event { return append(e[:14], e[15:]...) })},
+		{"a redraw token reported pending at quiescence although the only request had been served", mod(func(e []event) []event { e[15].Tok = 1; return e })},
+		{"the second committed result returned instead of the first", mod(func(e []event) []event { e[21].B = "late"; return e })},
+		{"two final redraws", mod(func(e []event) []event {
+			return append(e[:21], append([]event{{Ev: "Draw", Final: true}}, e[21:]...)...)
+		})},
+		{"no final redraw", mod(func(e []event) []event { return append(e[:20], e[21:]...) })},
+	}
+	// a recorded run of the real loop: accepted as recorded; rejected with the one flip that no
+	// schedule explains (see above), when the run has such a Draw
+	good := oneRun(rand.New(rand.NewSource(12345)), 3, 5, 2)
+	fullAsked := false
+	for i, e := range good {
+		if e.Ev == "RedrawStart" && e.Full {
+			fullAsked = true
+		}
+		if e.Ev == "Draw" && !e.Final && !e.Full && !fullAsked {
+			k := append([]event{}, good...)
+			k[i].Full = true
+			cs = append(cs, corruption{"a recorded run with a Draw turned full before any full request was started", k})
+			break
+		}
+	}
+	var mu sync.Mutex
+	var firstErr error
+	fail := func(err error) {
+		mu.Lock()
+		if firstErr == nil {
+			firstErr = err
+		}
+		mu.Unlock()
+	}
+	runtime.GOMAXPROCS(runtime.NumCPU())
+	lib.Parallel(len(cs)+2, 6, func(i int) {
+		switch {
+		case i == 0:
+			if v, err := lib.ValidateTrace(c, "TraceLoop(selftest-synthetic)", dir, "TraceLoop", synth, 3*time.Minute); err != nil {
+				fail(err)
+			} else if !v.Accepted {
+				fail(lib.Infra("vacuity guard: TraceLoop rejects the hand-written sequential trace (matched %d of %d events, invariant %q)", v.HighWater, len(synth), v.InvName))
+			}
+		case i == 1:
+			if v, err := lib.ValidateTrace(c, "TraceLoop(selftest-good)", dir, "TraceLoop", good, 3*time.Minute); err != nil {
+				fail(err)
+			} else if !v.Accepted {
+				mu.Lock()
+				rejectTrace(c, "selftest", good, v)
+				mu.Unlock()
+			}
+		default:
+			k := cs[i-2]
+			if v, err := lib.ValidateTrace(c, "TraceLoop(selftest-corrupt)", dir, "TraceLoop", k.evs, 3*time.Minute); err != nil {
+				fail(err)
+			} else if v.Accepted {
+				fail(lib.Infra("vacuity guard: TraceLoop accepted a trace with %s", k.name))
+			}
+		}
+	})
+	if firstErr != nil {
+		return firstErr
+	}
+	c.Set("vacuity_guard", fmt.Sprintf("hand-written sequential trace and one recorded run accepted; %d corrupted traces rejected", len(cs)))
 	return nil
 }
 
